@@ -22,6 +22,24 @@ class Budget(Exception):
     """Raised inside a shard when its time budget is exhausted."""
 
 
+def scratch_dir(ctx, prefix):
+    """The directory a shard writes its outputs to.  One shard in four puts it on ANOTHER file system than the one temporary
+    files live on (here /dev/shm, when it is there and writable): a rename from one to the other is not possible, a hard link
+    neither - what the library writes ends up complete all the same."""
+    import tempfile
+
+    if ctx.shard % 4 == 3 and not ctx.replay:
+        try:
+            if os.path.isdir("/dev/shm") and os.access("/dev/shm", os.W_OK) and os.stat("/dev/shm").st_dev != os.stat(tempfile.gettempdir()).st_dev:
+                d = tempfile.mkdtemp(prefix=prefix, dir="/dev/shm")
+                ctx.count("shards_writing_to_another_file_system")
+                ctx.other_fs = True
+                return d
+        except OSError:
+            pass
+    return tempfile.mkdtemp(prefix=prefix)
+
+
 def replay_by_index(ctx, mod, case):
     """Generic replay for workloads that are a seeded stream of cases: regenerate the stream of the recorded shard up to
     the recorded index and keep only what that case reports."""
